@@ -34,6 +34,9 @@ type Access struct {
 type Tx struct {
 	Acc        []Access `json:"acc"`
 	CommitFail bool     `json:"commitFail,omitempty"` // the storage transaction fails after the accesses succeeded
+	// ForgetFail: the caller ends the cache transaction with Commit(false) although one of its
+	// accesses failed (the manager keeps its own failed flag and must discard what was written)
+	ForgetFail bool `json:"forgetFail,omitempty"`
 }
 
 // Program is one exploration unit.
@@ -67,6 +70,9 @@ func (t Tx) String() string {
 	c := "commit"
 	if t.CommitFail {
 		c = "abort"
+	}
+	if t.ForgetFail {
+		c = "commit(false)-after-failed-access"
 	}
 	return strings.Join(p, ",") + ";" + c
 }
@@ -240,7 +246,7 @@ func runTx(w *world, mgr *cache.Manager, id int, tx Tx) {
 		w.token[shard] = 0
 	}
 	w.commitNow[id] = true
-	ctx.Commit(failed)
+	ctx.Commit(failed && !(tx.ForgetFail && !tx.CommitFail))
 	vsched.Point(fmt.Sprintf("tx%d-done", id))
 }
 
@@ -361,11 +367,14 @@ func txShapes() []Tx {
 		// not a shape the shard produces (a write batch accesses each cache once), but
 		// inside the property's quantifier: the same cache written twice by one transaction
 		{Acc: []Access{{Name: "A1"}, {Name: "A1"}}},
+		// two caches, the second access fails, and the caller closes with Commit(false): the
+		// manager's own failed flag must still discard the first cache
+		{Acc: []Access{{Name: "A2"}, {Name: "A1", FFails: true}}, ForgetFail: true},
 	}
 }
 
 func master(cfg *harness.Config, rep *harness.Report) {
-	rep.Rule = "programs: all unordered pairs (quick) / pairs and selected triples (thorough) of 13 transaction shapes (read-only / writing accesses to caches A1, A2 of shard A and B1 of shard B, failing callback, failing constructor, storage abort, two-access transactions incl. the same cache written twice) x evictor thread {none, Release(A1)} x manager size {-1, 0, 1 (< one object), 10 (one object fits, two do not)} x initial map {empty, A1 present}; for each program every interleaving of the threads at the scheduling points (every Lock/RLock/TryRLock/Unlock and atomic.Bool op of the real manager.go via shims, callback entry/exit, constructor, storage begin/end, eviction) with at most `bound` preemptions, iterated 0..bound; monitors: isolation (no callback on a cache another transaction has written and not committed; no write callback while another transaction's read-only callback is still inside the same object), no uncommitted state observed, scrapped caches never handed out, shared caches reflect committed storage, no deadlock, final probe can write and commit every cache. states = distinct observable outcomes; transitions = scheduler steps; traces = complete executions (all on the real code)"
+	rep.Rule = "programs: all unordered pairs (quick) / pairs and selected triples (thorough) of 14 transaction shapes (read-only / writing accesses to caches A1, A2 of shard A and B1 of shard B, failing callback, failing constructor, storage abort, two-access transactions incl. the same cache written twice and a failure in the second cache closed with Commit(false)) x evictor thread {none, Release(A1)} x manager size {-1, 0, 1 (< one object), 10 (one object fits, two do not)} x initial map {empty, A1 present}; for each program every interleaving of the threads at the scheduling points (every Lock/RLock/TryRLock/Unlock and atomic.Bool op of the real manager.go via shims, callback entry/exit, constructor, storage begin/end, eviction) with at most `bound` preemptions, iterated 0..bound; monitors: isolation (no callback on a cache another transaction has written and not committed; no write callback while another transaction's read-only callback is still inside the same object), no uncommitted state observed, scrapped caches never handed out, shared caches reflect committed storage, no deadlock, final probe can write and commit every cache. states = distinct observable outcomes; transitions = scheduler steps; traces = complete executions (all on the real code)"
 	rep.Assumptions = []string{"the storage layer is a stand-in: per-shard committed counter and single-writer token taken before the first access and released before cacheTx.Commit, as Shard.InsertPoints orders it", "usage protocol: every With of a transaction returns before its Commit (the overlap is defect F4, covered under C07)", "memory model: sequentially consistent interleavings of the shimmed operations"}
 	p := pool.New(pool.Options{CPUsPerWorker: 1, JobTimeout: 300 * time.Second})
 	if cfg.Replay != "" {
